@@ -430,7 +430,7 @@ func main() {
 			continue
 		}
 		r := prng.ForCase(f.Seed, k)
-		switch r.Weighted([]int{8, 36, 10, 10, 10, 8, 4, 6, 5, 3}) {
+		switch r.Weighted([]int{8, 36, 10, 10, 10, 8, 4, 6, 5, 3, 3}) {
 		case 0:
 			rn.varuintCase(k, r)
 			o.Count("case:varuint")
@@ -470,9 +470,12 @@ func main() {
 		case 8:
 			rn.entryCase(k, r)
 			o.Count("case:entry-points")
-		default:
+		case 9:
 			rn.scopesCase(k, r)
 			o.Count("case:json-values")
+		default:
+			rn.msgObjCase(k, r)
+			o.Count("case:message-object")
 		}
 	}
 }
